@@ -1,20 +1,25 @@
 // C02 — paths and update operators equal their defining reductions.
 //
 // correspondence stream `path` (driver drv_c01, stream `eval`): real gojq vs Spec.eval on
-//   path / update programs: `path(p)`, `[paths]`, `p |= f`, `p = x`, `p op= x`, `del(p)`,
-//   `delpaths`, `to_entries`, `with_entries`, `map_values`, `pick`, `tostream`, generated against
-//   the inferred type of the input so that paths overlap (ancestor / descendant / slices).
+//
+//	path / update programs: `path(p)`, `[paths]`, `p |= f`, `p = x`, `p op= x`, `del(p)`,
+//	`delpaths`, `to_entries`, `with_entries`, `map_values`, `pick`, `tostream`, generated against
+//	the inferred type of the input so that paths overlap (ancestor / descendant / slices).
+//
 // oracle (model-free, package c02oracle by the heap agent): every operator against its EXPLICIT
-//   defining reduction on the real implementation, adversarial path lists and update bodies.
+//
+//	defining reduction on the real implementation, adversarial path lists and update bodies.
 package main
 
 import (
 	"fmt"
+	"strings"
 
 	"github.com/itchyny/gojq"
 
 	"verifharness/c02oracle"
 	"verifharness/common"
+	"verifharness/defred"
 	"verifharness/jqast"
 	"verifharness/jqgen"
 )
@@ -59,7 +64,7 @@ func main() {
 		p, tp := g.PathFor(t)
 		body, _ := jqgen.NewTyped(r, r.Range(0, 2)).Gen(tp)
 		var src string
-		switch r.Intn(12) {
+		switch r.Intn(18) {
 		case 0, 1:
 			src = "[path(" + p + ")]"
 		case 2, 3, 4:
@@ -76,6 +81,37 @@ func main() {
 			src = "try ((" + p + ") |= (" + body + ")) catch ."
 		case 10:
 			src = "reduce path(" + p + ") as $q (.; setpath($q; getpath($q) | " + common.Pick(r, []string{".", "[.]", "1"}) + "))"
+		case 14, 15, 16:
+			// two activations of an update alive at once, each dropping some of its paths
+			// (the deleted-path lists of nested `|=` must not interfere)
+			drop := func() string {
+				return common.Pick(r, []string{"select(. != null)", "values", "if . == null then empty else . end", "select(type != \"number\")", "select(. != 1)", "select(type == \"array\" or type == \"object\")", "select(. != [])", "if type == \"number\" and . > 1 then empty else . end"})
+			}
+			q, _ := jqgen.NewTyped(r, r.Range(0, 2)).PathFor(tp)
+			inner := common.Pick(r, []string{"(" + q + ") |= (" + drop() + ")", "(.[]?) |= (" + drop() + ")", "map_values(" + drop() + ")?", "(.. | select(type != \"array\" and type != \"object\")) |= (" + drop() + ")", "del(" + q + ")", "(.[]?) |= ((.[]?) |= (" + drop() + "))"})
+			src = common.Pick(r, []string{
+				"(" + p + ") |= (" + drop() + " | " + inner + ")",
+				"(.[]?) |= (" + drop() + " | " + inner + ")",
+				"map_values(" + drop() + " | " + inner + ")?",
+				"(" + p + ") |= (" + inner + " | " + drop() + ")",
+				"[(" + p + ") |= (" + drop() + " | " + inner + "), ((" + p + ") |= (" + drop() + "))]",
+				"(" + p + ") |= (" + drop() + " | " + inner + ") | (" + p + ")? |= (" + drop() + ")",
+			})
+		case 11, 12, 13:
+			// navigation from a COMPUTED value (must raise the invalid-path error, whatever the
+			// computed value is: empty or not, array, object, scalar or null)
+			sel := common.Pick(r, []string{"select(. == null)", "select(. != null)", "select(false)", "select(type == \"number\")", "select(type == \"array\")", "select(. > 5)?", "."})
+			comp := common.Pick(r, []string{
+				"[" + p + "]", "[" + p + " | " + sel + "]", "[.[]? | " + sel + "]", "map(" + sel + ")?", "[]", "{}", "[.]", "{a: .}", "{a: (" + p + ")}", "[" + body + "]", "(" + body + ")",
+				"(" + p + " | [.[]?])", "(" + p + " | {x: .})", "to_entries?", "keys?", "[paths]", "(. as $x | [$x[]?])", "([" + p + "] | .[1:])", "(tojson | fromjson)", "(" + p + " | tostring)",
+			})
+			nav := common.Pick(r, []string{"[]", "[0]", ".a", "[1:]", "[]?", ".a?", "[0]?", "[]?[]?", ".x", "[-1]", "[:1]"})
+			acc := comp + " | ." + nav
+			if nav[0] == '.' {
+				acc = comp + " | " + nav
+			}
+			src = common.Pick(r, []string{"[path(" + acc + ")]", "try [path(" + acc + ")] catch \"invalid\"", "del(" + acc + ")", "(" + acc + ") |= 1", "(" + acc + ") = 1", "try ((" + acc + ") |= empty) catch \"invalid\"",
+				"[paths(" + acc + ")]?", "(" + acc + ") += 1", "[path(" + p + " | " + acc + ")]", "try del(" + p + " | " + acc + ") catch \"invalid\"", "pick(" + acc + ")"})
 		default:
 			src = "[path(" + p + ")] as $ps | [$ps[] as $q | getpath($q)] == [" + p + "]"
 		}
@@ -83,7 +119,9 @@ func main() {
 	}
 	st := ctx.NewStream("eval", "Gojq.Spec.eval in path mode (navigated / iterate / pathIntact / evalModify / evalAssign of Model/Spec.lean)",
 		"path and update programs generated against the input's inferred type (overlapping, ancestor/descendant and slice paths; bodies that copy, duplicate, re-embed, replace or drop) plus a fixed list × 15 inputs; programs that fail to compile or exceed the step budget are not compared; distinct = distinct implementation answers")
-	var lines, impl, labels []string
+	var lines, impl, labels, srcs []string
+	var ins []any
+	altCache := map[string]string{}
 	cache := map[string]*gojq.Code{}
 	asts := map[string]string{}
 	for _, c := range cases {
@@ -118,21 +156,71 @@ func main() {
 		lines = append(lines, asts[c.src]+" ||| "+common.Canon(c.in))
 		impl = append(impl, common.CanonOutcome(o))
 		labels = append(labels, c.src+"  ON  "+common.Canon(c.in))
+		srcs = append(srcs, c.src)
+		ins = append(ins, c.in)
 		if len(st.Samples) < 4 && len(lines)%701 == 1 {
 			st.Samples = append(st.Samples, c.src+" on "+common.Canon(c.in)+" => "+common.CanonOutcome(o))
 		}
 	}
 	st.Labels = labels
 	ctx.RunStream(st, lines, impl)
+	if n := common.RefereeJq(ctx, st, srcs, ins); n > 0 {
+		ctx.Res.Notes = append(ctx.Res.Notes, fmt.Sprintf("%d disagreement(s) confirmed against jq 1.6", n))
+	}
+
+	// ---------- every update operator against its defining reduction, by rewriting the program ----
+	red := ctx.NewOracle("reduction-rewrite", "every generated program that contains `|=`, `=`, `op=` (at any depth, nested in each other, inside path expressions, bodies and conditions) is rewritten by replacing each operator with its defining reduction written in jq (reduce path(l) … setpath/getpath/delpaths, package defred) and both programs run on the real implementation: same outputs, same termination kind and same error value; distinct = distinct programs compared")
+	redSeen := map[string]bool{}
+	for _, c := range cases {
+		alt, ok := altCache[c.src]
+		if !ok {
+			alt = defred.Program(c.src)
+			altCache[c.src] = alt
+		}
+		if alt == "" || cache[c.src] == nil {
+			continue
+		}
+		a := common.RunCode(cache[c.src], common.DeepCopy(c.in), budget, maxOuts)
+		b := common.RunSrc(alt, common.DeepCopy(c.in), 30*budget, maxOuts)
+		if a.Budget || b.Budget || a.Panic != "" || b.Panic != "" || b.ParseErr != nil || b.CompErr != nil {
+			red.Distribution["skipped"]++
+			continue
+		}
+		red.Cases++
+		redSeen[c.src] = true
+		ca, cb := looseOutcome(a), looseOutcome(b)
+		if a.Err != nil {
+			red.Distribution["ends:error"]++
+		} else {
+			red.Distribution["ends:done"]++
+		}
+		if ca != cb {
+			ctx.Violate("defred:"+c.src+":"+common.Canon(c.in), "update operator differs from its defining reduction: "+c.src,
+				map[string]any{"query": c.src, "input": common.Canon(c.in), "operator_gives": ca, "reduction_gives": cb, "reduction_program": alt})
+		}
+	}
+	red.Distinct = len(redSeen)
 	c02oracle.Run(ctx)
 	_ = fmt.Sprint
 	ctx.Finish()
 }
 
+// looseOutcome: outputs and termination; the text of a built-in error message is not compared
+// (the reduction reports the same failure through other call sites), error values are.
+func looseOutcome(o common.Outcome) string {
+	s := common.CanonOutcome(o)
+	if i := strings.Index(s, "ERR msg "); i >= 0 {
+		return s[:i] + "ERR msg"
+	}
+	return s
+}
+
 var fixed = []string{
 	"[path(..)]", "[paths]", "[path(.[]?)]", "[path(.a?)]", "[path(.a.b?)]", "[path(.[0]?)]", "[path(.[1:]?)]", "[path(.[]?[]?)]", "[path(first(.[]?))]", "[path(.a? // .b?)]", "[path(select(. != null))]", "[path(if . then .a? else .[0]? end)]",
 	"[path(getpath([\"a\",\"b\"])?)]", "[path(limit(1; .[]?))]", "[path(empty)]", "[path(.[]? | select(. != 1))]", "[path(recurse(.[]?; . != null))]", "[path(.. | select(type == \"number\"))]", "try path(1) catch .", "try path([.] | .[0]) catch .", "try path({a: .} | .a) catch .",
-	"try path(.a? | tostring) catch .", "try path(. as $x | $x) catch .", "[path(. as $x | .[]?)]", "try [path(.[]? | . as $x | $x)] catch .", "try path(. + 0) catch .", "(.[]?) |= (. // 0)", "(.a?, .b?) |= 1", ".[]? |= empty", "(.[0]?, .[1]?) |= empty", ".[1:]? |= [9]", ".[:1]? |= []",
+	"try path(.a? | tostring) catch .", "try path([][]) catch \"invalid\"", "try path({}[]) catch \"invalid\"", "try path([.[]? | select(false)][]) catch \"invalid\"", "try del([.[]? | select(. == \"none\")][]) catch \"invalid\"", "try path(map(select(false))[]?) catch \"invalid\"",
+	"try ([.[]?][] |= 1) catch \"invalid\"", "[null, [1, null]] | .[] |= (values | (.[] |= values))", "[null, [1, null], null, [null, 2, null]] | map_values(values | map_values(values))", "{\"a\": null, \"b\": {\"c\": 1, \"d\": null}} | map_values(values | map_values(values))",
+	"[1, [2, 1], [[1, 3]]] | .[] |= (select(. != 1) | (.[]? |= (select(. != 1) | (.[]? |= select(. != 1)))))", "[null, [1, null]] | [.[] |= (values | (.[] |= values)), (.[] |= values)]", "try path({a: 1} | .a) catch \"invalid\"", "try path([] | .[0]) catch \"invalid\"", "try path({} | .a) catch \"invalid\"", "try path([] | .[1:]) catch \"invalid\"", "try path(null | [] | .[]) catch \"invalid\"", "try path([.[]?] | .[]) catch \"invalid\"", "try path(. as $x | $x) catch .", "[path(. as $x | .[]?)]", "try [path(.[]? | . as $x | $x)] catch .", "try path(. + 0) catch .", "(.[]?) |= (. // 0)", "(.a?, .b?) |= 1", ".[]? |= empty", "(.[0]?, .[1]?) |= empty", ".[1:]? |= [9]", ".[:1]? |= []",
 	"(.[0]?, .[0]?) |= [.]", "(.a?, .a?.b?) |= {x: .}", "(.. | select(type == \"number\")) |= . + 1", "(.[]? | select(. == 1)) |= 2", ".a? = 1", ".[0]? = 1", "(.a?, .b?) = (1, 2)", ".[]? = 1", ".a? += 1", ".[]? += 1", ".a? //= 5", "del(.[0]?)", "del(.a?)", "del(.[]?)", "del(.[0]?, .[1]?)",
 	"del(.[1:]?)", "del(.. | select(. == null))?", "delpaths([[0],[1]])?", "delpaths([[\"a\"]])?", "delpaths([[0,0],[0]])?", "delpaths([])", "to_entries?", "with_entries(.)?", "with_entries(.value |= [.])?", "map_values(. // 0)?", "map_values(empty)?", "pick(.a?)", "pick(.[0]?)", "pick(.a?.b?)", "[tostream]", "fromstream(tostream)",
 	"[paths(type == \"number\")]", "[paths(..)]", "getpath([\"a\",\"b\"])?", "setpath([\"a\",\"b\"]; 1)?", "setpath([0]; 1)?", "setpath([]; 1)", "setpath([1:2]; [9])?"[:0] + "setpath([{\"start\":1,\"end\":2}]; [9])?", "[.[]?] | .[1:] = [7]", "[.[]?] | .[2] = 7", "[.[]?] | del(.[0])", "reduce path(.[]?) as $p (.; setpath($p; 1))", "[getpath(path(..))] == [..]",
